@@ -326,3 +326,19 @@ package clickhouse_planner
 //@ func (*planner).Process [C14]
 //@   flag checks=-index,-assert
 //@   at SQLRequestPlanner).Process execution-starts-without-cached-sub-selects: p.fpCache == nil && p.labelsCache == nil
+
+// A label filter may be evaluated on the stored labels of the series ("simple") only
+// while no earlier stage has changed the labels: the marking stops at the first
+// parser, drop or label_format stage ({a="b"} | drop c | c="x" must see c dropped).
+//@ func (*planner).analyzeScript [C07]
+//@   flag checks=-index,-assert
+//@   loop 1:
+//@     invariant nothing-before-changes-the-labels: forall j int :: 0 <= j && j <= rangeindex && j < len(pipeline) ==> isnil(pipeline[j].Parser) && isnil(pipeline[j].Drop) && isnil(pipeline[j].LabelFormat)
+//@     invariant nothing-marked-beyond: forall k int :: rangeindex < k && k < len(p.simpleLabelOperation) ==> !p.simpleLabelOperation[k]
+//@     modifies elems(p.simpleLabelOperation)
+//@   loop 2:
+//@     modifies p.labelsJoinIdx
+//@   loop 3:
+//@     modifies elems(p.renewMainAfter)
+//@   loop 4:
+//@     modifies p.fastUnwrap
